@@ -173,7 +173,11 @@ impl HpoTermInternal {
         // 4 byte for replacement term
         // name in u8 encoded
         let name = self.name().as_bytes();
-        let name_length = std::cmp::min(name.len(), 255);
+        let mut name_length = std::cmp::min(name.len(), 255);
+        // never cut a multi-byte character in half
+        while !self.name().is_char_boundary(name_length) {
+            name_length -= 1;
+        }
         let size = name_length + 4 + 4 + 1 + 1 + 4;
 
         let mut res = Vec::with_capacity(size);
